@@ -119,3 +119,32 @@ func VP_C02_mint() {
 	vpAssert(vpMintPrivate.ClientIP == ip, "minted-address-claim-is-the-client-ip-attribute")
 	vpAssert(vpMintPrivate.AccessToken == at, "minted-access-token-claim-is-the-session-access-token")
 }
+
+//vp:property C02
+//vp:bounds the same correctly signed, unexpired gateway cookie presented twice on fresh tunnels; the identity provider's verdict on the embedded access token is arbitrary and independent at each presentation (valid, then revoked/unreachable, or the reverse)
+//vp:assume as VP_C02_verify
+//vp:reach second-accepted second-refused
+func VP_C02_twice() {
+	vpResetJose()
+	vpSetKeys()
+	vpClaimLen = 2
+	vpIdpPerCall = true
+	defer func() { vpIdpPerCall = false }()
+	var oks [2]bool
+	for i := 0; i < 2; i++ {
+		id := identity.NewUser()
+		tun := &protocol.Tunnel{User: id}
+		// the same token both times: keep the ghost description, reset only per-call logs
+		vpParseCalls, vpSigAlgs, vpTokAlgs, vpClaimsKeyLog = 0, nil, nil, nil
+		oks[i], _ = CheckPAACookie(vpCtxWith(tun, id), "the-cookie")
+	}
+	vpObserveBool("ok1", oks[0])
+	vpObserveBool("ok2", oks[1])
+	if oks[1] {
+		vpReach("second-accepted")
+		vpAssert(vpIdpCalls >= 1 && vpBool("idp-honours-token-"+vpItoa(vpIdpCalls)), "every-acceptance-rests-on-a-current-idp-verdict")
+		vpAssert(vpIdpAsked[1], "idp-consulted-at-the-second-presentation")
+	} else {
+		vpReach("second-refused")
+	}
+}
